@@ -44,8 +44,18 @@ def strip_generics(s):
     _GENERIC_CACHE[s] = r
     return r
 
+ALIAS_FN = {}       # normalised id of a renamed function -> its id in the reference tree (renames.canonicalise)
+FIELD_ALIAS = {}    # (normalised ADT path, field name) -> field name in the reference tree
+
 def norm(s):
-    return strip_generics(s) if s else s
+    if not s: return s
+    r = strip_generics(s)
+    if ALIAS_FN:
+        a = ALIAS_FN.get(r)
+        if a is not None: return a
+        i = r.find("::{closure")
+        if i > 0 and r[:i] in ALIAS_FN: return ALIAS_FN[r[:i]] + r[i:]
+    return r
 
 # ------------------------------------------------------------------------------------------------
 # program model
@@ -178,7 +188,7 @@ class Program:
         self.impls = []
         self.crates = []
         for path in fact_files:
-            d = json.load(open(path))
+            d = path if isinstance(path, dict) else json.load(open(path))
             self.crates.append(d["crate"])
             for raw in d["fns"]:
                 f = Fn(raw, self)
@@ -291,7 +301,8 @@ def trace_place(f, place, depth=0, at=None):
             base = O("deref", base)
         elif isinstance(e, dict):
             if "f" in e:
-                base = O("field", base, norm(e["a"]), e["f"])
+                adt_n = norm(e["a"])
+                base = O("field", base, adt_n, FIELD_ALIAS.get((adt_n, e["f"]), e["f"]) if FIELD_ALIAS else e["f"])
             elif "dc" in e:
                 tb = _try_branch_arg(f, base, depth)
                 if tb is not None and e["dc"] == "Continue":
